@@ -568,7 +568,7 @@ def gen_case(rng, flavor, big=False):
             g["pulses"] = []
             gates.append(g)
             continue
-        if flavor == "discrete" or flavor == "ratio":
+        if flavor in ("discrete", "ratio", "lategap"):
             k = rng.choice(["s", "d"])
         elif flavor == "continuous":
             k = "c"
@@ -607,6 +607,24 @@ def gen_case(rng, flavor, big=False):
         pair = [a, b] if rng.random() < 0.7 else [b, a]
         at = rng.randint(0, len(gates))
         gates = (gates[:at] if rng.random() < 0.5 else []) + pair + gates[at:]
+    if flavor == "lategap":
+        # a long pulse, then a very short idle gap late in the sequence, then a short pulse on the same channel
+        # (the gap is far below the absolute time at which it occurs, but above 1e-6 x the next step)
+        q = rng.randrange(nq)
+        ch = "x%d" % q
+        long_d = float(rng.choice([1, 3, 5])) * 2.0 ** rng.randint(8, 16)
+        gap = 2.0 ** rng.randint(-17, -12)
+        nxt = gap * 2.0 ** rng.randint(0, 15)
+        a = {"name": "G0", "targets": [q], "controls": None, "tl": ["scalar", long_d], "pulses": [[ch, _coef(rng)]]}
+        i = {"name": "G2", "targets": [q], "controls": None, "tl": [rng.choice(["none", "scalar"]), gap], "pulses": []}
+        if rng.random() < 0.5:
+            b = {"name": "G1", "targets": [q], "controls": None, "tl": ["scalar", nxt], "pulses": [[ch, _coef(rng)]]}
+        else:
+            b = {"name": "G1", "targets": [q], "controls": None, "tl": ["arr", [0.0, nxt, 2 * nxt]],
+                 "pulses": [[ch, [_coef(rng), _coef(rng)]]]}
+        gates = [g for g in gates if not any(p[0] == ch or p[0] == "g" for p in g["pulses"])][:3]
+        gates = gates + [a, i, b]
+        mode = None
     return {"kind": "synthetic", "mode": mode, "nq": nq, "gates": gates, "flavor": flavor}
 
 
@@ -734,7 +752,7 @@ def correspond(ctx):
     cases = list(corpus_cases())
     n_corpus = len(cases)
     plan = [("discrete", ctx.n(400, 2500)), ("continuous", ctx.n(300, 2000)), ("perqubit", ctx.n(200, 1200)),
-            ("mixed", ctx.n(120, 800)), ("ratio", ctx.n(150, 800))]
+            ("mixed", ctx.n(120, 800)), ("ratio", ctx.n(150, 800)), ("lategap", ctx.n(80, 400))]
     for flavor, n in plan:
         for _ in range(n):
             cases.append(gen_case(rng, flavor, big=ctx.thorough and rng.random() < 0.5))
@@ -808,7 +826,7 @@ def search(ctx, broken):
         if isinstance(detail, dict) and isinstance(detail.get("input"), dict):
             cands.append(detail["input"])
     rng = ctx.rng
-    for flavor in ("ratio", "discrete", "continuous", "perqubit"):
+    for flavor in ("ratio", "lategap", "discrete", "continuous", "perqubit"):
         for _ in range(ctx.n(150, 800)):
             cands.append(gen_case(rng, flavor))
     for case in cands:
